@@ -15,6 +15,12 @@ var (
 	EnvRepFields  = []string{"EnvironmentalMetrics", "EnvironmentalMetricValue", "CRName", "CRValue", "IRName", "IRValue", "ARName", "ARValue", "MAVName", "MAVValue", "MACName", "MACValue", "MPRName", "MPRValue", "MUIName", "MUIValue", "MSName", "MSValue", "MCName", "MCValue", "MIName", "MIValue", "MAName", "MAValue", "EnvironmentalScore"}
 )
 
+// commonFuncNames are function names that template helper libraries commonly add; none of
+// them is defined by text/template, so a template using one must fail to parse.
+var commonFuncNames = []string{"upper", "lower", "title", "toUpper", "toLower", "ToUpper", "ToLower", "trim", "trimSpace", "join", "split", "replace", "contains", "hasPrefix",
+	"default", "quote", "squote", "safe", "safeHTML", "raw", "escape", "add", "sub", "inc", "now", "date", "env", "repeat", "indent", "nindent", "toJson", "toJSON", "json",
+	"b64enc", "first", "last", "list", "dict", "ternary", "coalesce", "empty", "printf1", "sprintf", "string", "int", "float", "markdown", "urlize", "md", "color", "pad"}
+
 // fieldRef draws a field reference; valid tells whether it exists on a report of level.
 func fieldRef(t *rapid.T, level spec.Level) string {
 	k := rapid.IntRange(0, 19).Draw(t, "fieldkind")
@@ -104,7 +110,11 @@ func pipeline(t *rapid.T, level spec.Level, depth int) string {
 			return fmt.Sprintf("print (%s) (%s)", pipeline(t, level, depth-1), pipeline(t, level, depth-1))
 		}
 		return fmt.Sprintf("print %s", arg(t, level))
-	case 13: // invalid: unknown function, wrong arity, dangling pipe
+	case 13: // functions text/template does not define (an export must not add any), wrong arity, dangling pipe
+		if rapid.Bool().Draw(t, "extrafn") {
+			fn := rapid.SampledFrom(commonFuncNames).Draw(t, "fnname")
+			return rapid.SampledFrom([]string{fn + " .Vector", ".Vector | " + fn, fn, fn + " .Vector \",\"", fn + " 1 2"}).Draw(t, "fnform")
+		}
 		return rapid.SampledFrom([]string{"foo .Vector", "len", "printf", ".Vector |", "| html", "index .Vector", "eq .Vector", "call .Vector", ".Vector .Version", "html .Vector .Version | len", "1 | 2", "(", ")", "slice"}).Draw(t, "badpipe")
 	case 14:
 		return fmt.Sprintf("%s | %s | %s", fieldRef(t, level), rapid.SampledFrom([]string{"html", "print", "len"}).Draw(t, "f1"), rapid.SampledFrom([]string{"print", "printf \"%v\"", "js"}).Draw(t, "f2"))
@@ -195,5 +205,14 @@ func Template(t *rapid.T, level spec.Level) string {
 		return b.String()
 	}
 	var defs []string
-	return Body(t, level, rapid.IntRange(0, 2).Draw(t, "depth"), &defs)
+	body := Body(t, level, rapid.IntRange(0, 2).Draw(t, "depth"), &defs)
+	if rapid.IntRange(0, 24).Draw(t, "long") == 0 { // long templates: buffer and size boundaries of readers
+		n := rapid.SampledFrom([]int{511, 512, 513, 4095, 4096, 4097, 8192, 32768, 65535, 65536, 65537, 100000, 1<<20 + 1}).Draw(t, "padlen")
+		pad := strings.Repeat(rapid.SampledFrom([]string{"x", "ab\n", "é"}).Draw(t, "padunit"), n)
+		if rapid.Bool().Draw(t, "padfront") {
+			return pad[:n] + body
+		}
+		return body + pad[:n] + "{{.Version}}"
+	}
+	return body
 }
